@@ -196,8 +196,8 @@ def parse_stl_binary(b):
     return facets
 
 
-def normal_ok(fc, rel):
-    v = fc['v']
+def normal_ok(fc, rel, verts=None):
+    v = verts if verts is not None else fc['v']     # binary STL stores float32: judge the normal against the mesh's own positions
     a = [q - p for p, q in zip(v[0], v[1])]
     b = [q - p for p, q in zip(v[1], v[2])]
     n = [a[1] * b[2] - a[2] * b[1], a[2] * b[0] - a[0] * b[2], a[0] * b[1] - a[1] * b[0]]
@@ -296,7 +296,7 @@ def check_exports(ctx, rng, obj, surfs, sp, sc, as_file):
                     fc = facets[k]
                     k += 1
                     ok = ok and len(fc['v']) == 3 and all(all(abs(a - b) <= ptol for a, b in zip(g, pos[i])) for g, i in zip(fc['v'], f))
-                    ok = ok and normal_ok(fc, rel if not binary else 1e-3)
+                    ok = ok and normal_ok(fc, rel, [pos[i] for i in f])
         ctx.check(ok, 'export/%s' % name, '%s STL export does not describe the tessellation (facet count / vertex coordinates / '
                   'facet normal not positively parallel to (v1-v0)x(v2-v1))' % ('binary' if binary else 'ASCII'), what=name)
 
